@@ -21,6 +21,21 @@ Fixpoint climber_from (p : prec) (d : cdecl) : climber :=
   | lv :: d' => map (fun o : copdecl => (fst o, (p, snd o))) (cchain lv) ++ climber_from (S p) d'
   end.
 Definition climber_new (d : cdecl) : climber := climber_from 1 d.
+(* PrecClimber::new_const (cargo feature const_prec_climber): PrecClimber { ops: Cow::Borrowed(ops) } -
+   the caller's slice of (rule, precedence, assoc) as it is: any order, any u32 precedences *)
+Definition climber_new_const (ops : climber) : climber := ops.
+(* prec_climber![ A r | r | .., A r | .., .. ]  (A = L | R, one associativity per level by construction):
+   @precedences declares `const r: u32` = 1 for the rules of the first level, 1 + the previous level's
+   value for the next ones (a rule written twice is a duplicate `const`: a compile-time error);
+   @array lists (Rule::r, r, assoc of the level) in the order written; the result goes to new_const. *)
+Definition mlevel := (assoc * (rule * list rule))%type.
+Definition mrules (lv : mlevel) : list rule := fst (snd lv) :: snd (snd lv).
+Fixpoint macro_entries (p : prec) (d : list mlevel) : climber :=
+  match d with
+  | [] => []
+  | lv :: d' => map (fun r : rule => (r, (p, fst lv))) (mrules lv) ++ macro_entries (S p) d'
+  end.
+Definition climber_macro (d : list mlevel) : climber := climber_new_const (macro_entries 1 d).
 (* fn get : self.ops.iter().find(|(r, _, _)| r == rule) *)
 Definition ctable := rule -> option (prec * assoc).
 Fixpoint climber_get (c : climber) (r : rule) : option (prec * assoc) :=
@@ -107,3 +122,11 @@ Definition crules (d : cdecl) : list rule := map fst (flat_map cchain d).
 (* every level has a single associativity *)
 Definition cuniform_decl (d : cdecl) : Prop :=
   Forall (fun lv : clevel => forall o, In o (cchain lv) -> snd o = snd (fst lv)) d.
+
+(* a prec_climber! declaration re-read as the argument of PrecClimber::new
+   (A r1 | r2 ..  |->  Operator::new(r1, A) | Operator::new(r2, A) ..) *)
+Definition cdecl_of_macro (d : list mlevel) : cdecl :=
+  map (fun lv : mlevel => ((fst (snd lv), fst lv), map (fun r : rule => (r, fst lv)) (snd (snd lv)))) d.
+(* a slice given to new_const has one associativity per precedence value *)
+Definition cuniform_slice (c : climber) : Prop :=
+  forall r1 r2 p s1 s2, In (r1, (p, s1)) c -> In (r2, (p, s2)) c -> s1 = s2.
